@@ -214,6 +214,9 @@ impl SemanticState {
 
     pub fn build(mut self) -> anyhow::Result<ResolvedSemanticState> {
         loop {
+            #[cfg(pyxis_verif)]
+            crate::verif::begin_pass(&self.type_registry);
+
             let to_resolve = self.type_registry.unresolved();
             if to_resolve.is_empty() {
                 break;
